@@ -173,6 +173,22 @@ CHECKS["C19"] = dict(level=MC, design="DESIGN.md section 6, C19",
          "is dropped exactly when no remaining entry uses its id (base definition kept, empty libraries removed), and that "
          "everything about a bystander symbol is unchanged; concrete replays round-trip the IR through protobuf.")
 
+CHECKS["C18"] = dict(level=MC, design="DESIGN.md section 6, C18",
+    note="Bounds: x86-64 only (ELF PIE, ELF non-PIE, PE); uses of A as direct call, direct jump, call through the GOT, lea, data "
+         "word, CFI personality/LSDA, symbolForwarding value, with a bystander symbol having the same kinds of uses; A/B "
+         "internal/external in all four combinations; requests: one, chain, two independent, combined with an insertion, "
+         "to/from a data object, the four invalid requests. Only the addends are z3 integers: the real capstone decoder "
+         "classifies the access, so instruction bytes and addresses are concrete and configurations are enumerated - the "
+         "solver contributes little to this check. One genuine defect (return edges are not updated) is a known finding. "
+         "Trusted: symx, the attribute table transcribed in harness/retarget.expected_attrs.",
+    technique="symbolic execution of the real retarget code through RewritingContext (symx) with symbolic addends; enumeration of "
+              "use kinds/configurations",
+    text="For each configuration the check decides that every expression, CFI directive and symbolForwarding value that named "
+         "A now names B with the same addend (for all addends) and with attributes converted per an independent transcription "
+         "of the ABI's internal/external rule, that everything mentioning the bystander is untouched, that exactly the branch "
+         "and call edges of instructions whose operand was A lead to B's referent, that return edges follow the calls (known "
+         "finding), and that invalid requests are refused.")
+
 NOT_YET = "check not built yet in this round (planned, see DESIGN.md section 6)"
 
 manifest = {
